@@ -98,9 +98,10 @@ class Spec(core.PropSpec):
             stack["root"]["fail_at"] = sorted({ro.randint(1, 15) for _ in range(ro.randint(1, 2))})  # transient storage errors
         if ro.random() < 0.15 and not streams:
             stack["seeded"]["seed"] = ro.choice([2 ** 31 - 1, 2 ** 32 + 5, 2 ** 62 + 11])  # "all seeds"
+        rp = core.Streams(seed)("preempt")
         return dict(cls="streams" if streams else "purity", stack=stack, mode=mode, return_ctx=(not streams) and rw.random() < 0.6,
                     K=K, prefetch=ro.choice([1, 2, 3]), epochs=epochs, sched_seed=ro.getrandbits(32), amb_main=rw.getrandbits(30),
-                    amb_ref=rw.getrandbits(30))
+                    amb_ref=rw.getrandbits(30), start_method=rp.choice(["fork", "fork", "spawn"]), preempt_rate=rp.choice([0, 0, 0, 0.05, 0.3]))
 
     def shrink_candidates(self, plan):
         st = plan["stack"]
@@ -222,6 +223,9 @@ class Spec(core.PropSpec):
         class Ld(SimDataLoader):
             chooser = Chooser(seed=plan["sched_seed"])
             trace = []
+            start_method = plan.get("start_method", "fork")
+            preempt = dict(seed=plan["sched_seed"], rate=plan["preempt_rate"]) if plan.get("preempt_rate") else None
+            switches = 0
 
         def ref_flipped(i):
             """the same fresh single access, but with the opposite context propagation (values only)"""
@@ -324,6 +328,10 @@ class Spec(core.PropSpec):
             out.count("fault:ambient_rng_clobber_in_worker", len(stack["root"]["clobber"]))
             faults += 1
         out.ev("schedule", Ld.trace)
+        if Ld.switches:
+            out.count("fault:worker_preempted_inside_a_sample", Ld.switches)
+        if plan["K"] >= 1 and Ld.start_method == "spawn":
+            out.count("fault:workers_started_with_spawn")
         if plan["cls"] == "streams" and not vio:
             vals = {}
             for i in range(n):
